@@ -4,4 +4,4 @@ id=$1
 d=/tmp/seed-$id
 rm -rf $d; git -C /repo worktree prune
 git -C /repo worktree add -q --detach $d HEAD || exit 1
-cd $d && find . -name 'zz_contracts_verif.go' -delete && git -c user.name=scratch -c user.email=s@x commit -qam "scratch base (verif files removed)" && echo $d
+cd $d && find . -name 'zz_contracts*_verif.go' -delete && git -c user.name=scratch -c user.email=s@x commit -qam "scratch base (verif files removed)" && echo $d
